@@ -58,12 +58,14 @@ def run(ctx):
     ix = ctx.ix
     w = ctx.world
     em = EM(ctx)
-    ctx.rule("R13.1", "transfer constructors: native and cw20 arms build the same (receiver, amount)", 5)
+    # floor: the engine may merge its two constructors into one; coverage is asserted per (crate, transfer kind) below
+    ctx.rule("R13.1", "transfer constructors: native and cw20 arms build the same (receiver, amount)", 4)
     ctx.rule("R13.1b", "trade replies: native required increments == amounts the cw20 arm pulls from the trader", 3)
     ctx.rule("R13.2", "exact-match check on native terminal paths; SentFunds lifecycle", 5)
 
     # ---------------------------------------------------------------- R13.1
     n = 0
+    covered = set()
     for crate in ("margined_engine", "margined_insurance_fund", "margined_fee_pool", "margined_common"):
         for f in sorted(w.crate_fns(crate), key=lambda f: f.pretty):
             if f.derived or "::_::" in f.pretty or f.kind == "Closure":
@@ -82,6 +84,7 @@ def run(ctx):
                     for (kind, recv, amt, payer) in direct_transfers(ix, ix.inline(v)):
                         if (k == "NativeToken") != (kind == "native"):
                             arms_[k].add(("WRONG-KIND-IN-ARM", kind))
+                        covered.add((crate, "native" if kind == "native" else ("cw20-transfer-from" if payer is not None else "cw20-transfer")))
                         arms_[k].add((ix.inline(recv), N(ix, amt) if amt is not None else None))
             if not arms_["NativeToken"] and not arms_["Token"]:
                 continue
@@ -91,6 +94,14 @@ def run(ctx):
                      "native arm builds %s; cw20 arm builds %s" % (
                          sorted((sym.show(r, 3) if isinstance(r, int) else str(r), norm.show(a) if isinstance(a, tuple) and a and a[0] in ("leaf", "int", "add", "sub", "mul", "div") else str(a)) for (r, a) in arms_["NativeToken"]),
                          sorted((sym.show(r, 3) if isinstance(r, int) else str(r), norm.show(a) if isinstance(a, tuple) and a and a[0] in ("leaf", "int", "add", "sub", "mul", "div") else str(a)) for (r, a) in arms_["Token"])))
+
+    # every transfer kind of every contract is built by some two-armed constructor that was compared (merging or splitting
+    # constructors changes the number of instances above, not this set)
+    want_cov = {("margined_engine", "native"), ("margined_engine", "cw20-transfer"), ("margined_engine", "cw20-transfer-from"),
+                ("margined_insurance_fund", "native"), ("margined_insurance_fund", "cw20-transfer"),
+                ("margined_fee_pool", "native"), ("margined_fee_pool", "cw20-transfer")}
+    ctx.inst("R13.1", "covers-all-transfer-kinds", want_cov <= covered, "",
+             "two-armed constructors compared cover %s%s" % (sorted(covered), "" if want_cov <= covered else "; MISSING %s" % sorted(want_cov - covered)))
 
     # ---------------------------------------------------------------- R13.1b / R13.2
     from .c03 import transfers_of
